@@ -10,6 +10,9 @@
   read / compare-and-swap granularity (model `Stab.SignalRace`): for every window, both directions, any version and
   mailbox content a persistent signal is never lost and never applied twice; a transient one is delivered or dropped,
   never buffered; and the variant whose CAS guards a re-read instead of the read the decision was taken on DOES lose it.
+  Same for the third direction, signal vs. StartStage (claim commit / plan commit / plan-conflict merge): the mailbox ends
+  with the old entries plus the new signal exactly once and the stage is planned exactly once; the variant whose merge lets
+  the stale in-memory mailbox win loses the signal in the window between the claim commit and the plan commit.
 -/
 import Stab.Lemmas.EngineGood
 import Stab.Lemmas.SignalRace
@@ -283,6 +286,108 @@ theorem race_then_drain_resumes_once_per_signal (K ver b0 k n : Nat) (dir : Dir)
 example : (quiesce 1 4 (race .cas 1 ⟨.sigFirst, 1, true⟩ (init 3 0)).stage).execs = 2 := by decide
 example : (quiesce 2 4 (race .cas 2 ⟨.sigFirst, 1, true⟩ (init 3 0)).stage).status = .suspended := by decide
 example : (quiesce 2 4 (race .cas 2 ⟨.runFirst, 2, true⟩ (init 3 1)).stage).execs = 3 := by decide
+
+/-! ### third direction: a signal handled while StartStage starts the stage (claim commit, plan commit, plan-conflict merge)
+
+  `raceStart`: `Dir.runFirst` = worker A is StartStage (micro-steps: read | claim CAS | plan CAS), `Dir.sigFirst` = worker A is
+  the signal handler; B runs to completion after `k` micro-steps of A.  Stage NOT_STARTED, any version, any mailbox. -/
+
+local macro "start_eval" : tactic =>
+  `(tactic| (simp only [raceStart, iter_zero, iter_bound, sigInit, maxRetries]
+             simp [startStep_start, startStep_loaded, startStep_claimMissed, startStep_claimed, startStep_planMissed, startStep_done,
+               initStart, load, claimRetryLimit, iter_start_done, sigStep_start, sigStep_loaded_cas, sigStep_loaded_stale, sigStep_done,
+               SignalRace.cas, sigConflict, iter_sig_done, iter_succ, iter_zero, add_two_ne_self, self_ne_add_two]))
+
+/-- **A persistent signal racing with StartStage is kept exactly once.**  Whatever the window (before the claim read,
+    between the read and the claim commit, between the claim commit and the plan commit, after) and whoever is worker A:
+    when both are done the stage is RUNNING, planned exactly once (one StartTask chain queued), the mailbox holds the `b0`
+    old entries plus the new one — none lost, none duplicated — nothing was consumed, delivered or dropped, and exactly
+    three writes went through the version check (claim, plan, mailbox). -/
+theorem start_race_signal_kept_exactly_once (ver b0 k : Nat) (dir : Dir) :
+    let r := raceStart .cas ⟨dir, k, true⟩ (initStart ver b0)
+    r.stage.status = .running ∧ r.stage.planned = 1 ∧ r.stage.queued = 1 ∧ r.stage.buffered = b0 + 1 ∧
+    r.stage.dropped = 0 ∧ r.stage.resumed = 0 ∧ r.stage.consumed = 0 ∧ r.stage.execs = 0 ∧ r.stage.version = ver + 3 := by
+  cases dir <;> rcases k with _ | _ | _ | k <;> start_eval
+
+/-- A transient signal racing with StartStage is dropped in every window (the stage is never SUSPENDED during its start):
+    the mailbox is untouched and the stage is planned exactly once. -/
+theorem start_race_transient_signal_dropped (ver b0 k : Nat) (dir : Dir) :
+    let r := raceStart .cas ⟨dir, k, false⟩ (initStart ver b0)
+    r.stage.status = .running ∧ r.stage.planned = 1 ∧ r.stage.queued = 1 ∧ r.stage.buffered = b0 ∧
+    r.stage.dropped = 1 ∧ r.stage.resumed = 0 ∧ r.stage.consumed = 0 ∧ r.stage.execs = 0 ∧ r.stage.version = ver + 2 := by
+  cases dir <;> rcases k with _ | _ | _ | k <;> start_eval
+
+/-- Both workers end properly in every window: StartStage starts the stage (never "duplicate", "taken over", re-queued or
+    raised) after at most one rolled-back commit, the signal worker buffers / drops after at most one. -/
+theorem start_race_workers_finish (ver b0 k : Nat) (dir : Dir) (p : Bool) :
+    let r := raceStart .cas ⟨dir, k, p⟩ (initStart ver b0)
+    (match r.start with
+     | .done o rb => o = .started ∧ rb ≤ 1
+     | _ => False) ∧
+    (match r.sig with
+     | .done o rb => (o = if p then .buffered else .dropped) ∧ rb ≤ 1
+     | _ => False) := by
+  cases dir <;> cases p <;> rcases k with _ | _ | _ | k <;> start_eval
+
+/-- **After the start race, one resume per signal**: delivering the queued RunTasks one at a time (any fuel `≥ b0 + 2`),
+    the task runs `1 +` (signals applied) times; if the `b0 + 1` signals cover its `K` suspensions the stage finishes after
+    execution `K + 1` with `b0 + 1 - K` signals left, otherwise all were used and it is SUSPENDED with an empty mailbox. -/
+theorem start_race_then_drain_resumes_once_per_signal (K ver b0 k n : Nat) (dir : Dir) (hn : b0 + 2 ≤ n) :
+    let f := quiesce K n (raceStart .cas ⟨dir, k, true⟩ (initStart ver b0)).stage
+    f.queued = 0 ∧ f.execs = 1 + f.resumed + f.consumed ∧
+    (if K ≤ b0 + 1 then f.status = .finished ∧ f.execs = K + 1 ∧ f.buffered = b0 + 1 - K
+     else f.status = .suspended ∧ f.execs = b0 + 2 ∧ f.buffered = 0) := by
+  have h := start_race_signal_kept_exactly_once ver b0 k dir
+  simp only [] at h
+  obtain ⟨h1, -, h2, h4, -, h5, h6, h3, -⟩ := h
+  have := quiesce_spec K (b0 + 1) n _ h1 h2 h4 (by omega) (by omega) hn
+  simp only [h3] at this
+  intro f
+  refine ⟨this.1, this.2.1, ?_⟩
+  have h7 := this.2.2
+  by_cases hc : K ≤ b0 + 1
+  · rw [if_pos (by omega)] at h7; rw [if_pos hc]; exact ⟨h7.1, h7.2.1, by rw [h7.2.2]; omega⟩
+  · rw [if_neg (by omega)] at h7; rw [if_neg hc]; exact ⟨h7.1, by rw [h7.2.1]; omega, h7.2.2⟩
+
+/-- **What the plan-conflict merge protects.**  In the variant whose merge keeps the in-memory mailbox whenever the key
+    already exists (`Variant.staleMailboxWins`), a persistent signal buffered between the claim commit and the plan commit
+    of a stage that already had mail (`0 < b0`) vanishes: the signal worker committed it (`buffered`, no conflict), StartStage
+    detected the conflict, re-read, and then overwrote the mailbox with its stale `b0` entries — for every version. -/
+theorem stale_mailbox_variant_loses_signal (ver b0 : Nat) (hb : 0 < b0) :
+    let r := raceStart .staleMailboxWins ⟨.runFirst, 2, true⟩ (initStart ver b0)
+    r.stage.status = .running ∧ r.stage.planned = 1 ∧ r.stage.buffered = b0 ∧ r.stage.consumed = 0 ∧ r.stage.resumed = 0 ∧
+    r.stage.dropped = 0 ∧ r.sig = .done .buffered 0 ∧ r.start = .done .started 1 := by
+  obtain ⟨b0, rfl⟩ : ∃ b, b0 = b + 1 := ⟨b0 - 1, by omega⟩
+  start_eval
+
+/-- … and with a task that needs two signals (`K = 2`, one buffered before, one sent during the start) the drain ends
+    SUSPENDED with an empty mailbox and an empty queue after one resume, although two persistent signals were sent. -/
+theorem stale_mailbox_variant_leaves_stage_suspended (ver : Nat) :
+    let f := quiesce 2 8 (raceStart .staleMailboxWins ⟨.runFirst, 2, true⟩ (initStart ver 1)).stage
+    f.status = .suspended ∧ f.buffered = 0 ∧ f.queued = 0 ∧ f.execs = 2 := by
+  start_eval
+  simp [quiesce, runAtomic, iter_bound, iter_succ, iter_zero, iter_run_done, maxRetries, runStep, SignalRace.cas, load]
+
+/-- … so "the mailbox holds the old entries plus the new one" (`start_race_signal_kept_exactly_once`) is FALSE of that
+    variant: the negation, witness `ver = 0, b0 = 1, A = StartStage, k = 2`. -/
+theorem stale_mailbox_variant_not_safe :
+    ¬ ∀ (ver b0 k : Nat) (dir : Dir),
+        (raceStart .staleMailboxWins ⟨dir, k, true⟩ (initStart ver b0)).stage.buffered = b0 + 1 := by
+  intro h
+  have := h 0 1 2 .runFirst
+  revert this
+  start_eval
+
+/-- … and that window with a non-empty mailbox is the only losing schedule of the variant (the model's windows are exact). -/
+theorem stale_mailbox_variant_safe_elsewhere (ver b0 k : Nat) (dir : Dir) (hk : ¬ (dir = .runFirst ∧ k = 2 ∧ 0 < b0)) :
+    let r := raceStart .staleMailboxWins ⟨dir, k, true⟩ (initStart ver b0)
+    r.stage.status = .running ∧ r.stage.planned = 1 ∧ r.stage.queued = 1 ∧ r.stage.buffered = b0 + 1 := by
+  cases dir <;> rcases k with _ | _ | _ | k <;> rcases b0 with _ | b0 <;> simp at hk <;> start_eval
+
+example : (raceStart .cas ⟨.runFirst, 2, true⟩ (initStart 1 1)).start = .done .started 1 := by decide
+example : (raceStart .cas ⟨.runFirst, 1, true⟩ (initStart 1 1)).start = .done .started 1 := by decide
+example : (raceStart .cas ⟨.sigFirst, 1, true⟩ (initStart 0 0)).sig = .done .buffered 1 := by decide
+example : (quiesce 2 8 (raceStart .cas ⟨.runFirst, 2, true⟩ (initStart 1 1)).stage).status = .finished := by decide
 
 end race
 
